@@ -1010,6 +1010,11 @@ char * SCPI_dtostre(double __val, char * __s, size_t __ssize, unsigned char __pr
     int sign = SCPIDEFINE_signbit(__val);
     char * s = buffer;
     int decpt;
+
+    if (__ssize == 0) {
+        return __s;
+    }
+
     if (sign) {
         __val = -__val;
         s[0] = '-';
